@@ -266,7 +266,36 @@ pub fn builder_for(cfg: &Cfg, dir: &Path) -> Builder {
     b
 }
 
+/// Applies an operation to a model only (used for alternative "maybe applied" models)
+pub fn apply_to_model(m: &mut Model, op: &Op, val: u64) {
+    match op {
+        Op::Put { k, ts, meta, size } => {
+            m.write(*k, *ts, *meta, val, *size);
+        }
+        Op::Del { k, ts, meta, only_if } => {
+            m.delete(*k, *ts, *meta, *only_if);
+        }
+        Op::Close | Op::CloseBg => {
+            let _ = m.close_active();
+        }
+        Op::Create | Op::CreateBg => {
+            let _ = m.create_active();
+        }
+        Op::Restore | Op::RestoreBg => {
+            let _ = m.restore_active();
+        }
+        Op::ForceUpdate { pred } => m.force_update(*pred),
+        Op::Restart { lazy, .. } => m.restart(*lazy),
+        Op::Dump | Op::DumpNoWait | Op::Offload { .. } | Op::Fsync => {}
+    }
+}
+
 impl<const N: usize> Driver<N> {
+    /// value id the next `step(Put)` will use
+    pub fn peek_val(&self) -> u64 {
+        (self.hist_id << 24) ^ (self.next_val << 1) | 1
+    }
+
     pub fn new(dir: PathBuf, cfg: Cfg, hist_id: u64) -> Self {
         let model = Model::new(cfg.allow_dup);
         Driver { dir, cfg, storage: None, model, hist_id, step: 0, stats: Stats::default(), quiescent: false, offloaded: false, tainted: Default::default(), next_val: 1 }
@@ -1001,4 +1030,50 @@ pub fn dir_ids(dir: &Path) -> Vec<usize> {
     }
     v.sort();
     v
+}
+
+pub enum CloseOutcome {
+    Returned(Result<(), String>),
+    /// close() did not return although the system was quiescent for the whole period (samples taken)
+    HungQuiescent(u64),
+    /// close() did not return within the watchdog, but I/O was still happening: inconclusive
+    HungBusy,
+}
+
+/// `Storage::close` under a timing-free deadlock monitor: while close() is pending, the I/O tap's
+/// in-flight counter and event count are sampled; "pending + no I/O in flight + no tap event during
+/// all samples over `secs` seconds" is a positive diagnosis of a hang, anything else is inconclusive.
+pub async fn close_monitored<const N: usize>(s: Storage<ArrayKey<N>>, dir: &Path, secs: u64) -> CloseOutcome {
+    use pearl::verif::tap;
+    let own_session = tap::count(dir) == 0;
+    if own_session {
+        tap::arm(dir, false, true);
+    }
+    let fut = s.close();
+    tokio::pin!(fut);
+    let t0 = std::time::Instant::now();
+    let mut samples = 0u64;
+    let mut busy = false;
+    let mut last_events = tap::count(dir);
+    let out = loop {
+        match tokio::time::timeout(Duration::from_millis(50), &mut fut).await {
+            Ok(r) => break CloseOutcome::Returned(r.map_err(|e| format!("{:#}", e))),
+            Err(_) => {
+                samples += 1;
+                let ev = tap::count(dir);
+                // the first samples may still see the final dump
+                if samples > 20 && (tap::inflight() > 0 || ev != last_events) {
+                    busy = true;
+                }
+                last_events = ev;
+                if t0.elapsed() > Duration::from_secs(secs) && samples >= 100 {
+                    break if busy { CloseOutcome::HungBusy } else { CloseOutcome::HungQuiescent(samples) };
+                }
+            }
+        }
+    };
+    if own_session {
+        let _ = tap::disarm(dir);
+    }
+    out
 }
